@@ -542,6 +542,16 @@ var c08Extras = []c08Part{
 	{"list-id-date-msgid", []string{"List-Id: <list.dest.example>\r\n", "Date: Thu, 01 Oct 2026 00:00:00 +0000\r\n", "Message-Id: <1@" + c08ASCIIDom + ">\r\n"}, false},
 	{"unsigned-empty-and-mime", []string{"X-Empty:\r\n", "MIME-Version: 1.0\r\n", "Content-Type: text/plain;\r\n charset=utf-8\r\n", "Content-Transfer-Encoding: 8bit\r\n"}, false},
 	{"existing-signature", []string{"DKIM-Signature: v=1; a=rsa-sha256; d=other.example; s=x; h=from; bh=AAAA; b=AAAA\r\n"}, false},
+	// more than 1 MiB of unsigned fields above the author's fields (the signed fields sit at the end of the header)
+	{"huge-pad", c08Pad(1060), false},
+}
+
+func c08Pad(n int) []string {
+	var fs []string
+	for i := 0; i < n; i++ {
+		fs = append(fs, fmt.Sprintf("X-Pad-%04d: %s\r\n", i, strings.Repeat("p", 985)))
+	}
+	return fs
 }
 
 // docs/reference/modifiers/dkim.md, "Default set of oversigned fields"
@@ -603,9 +613,12 @@ func c08Enumerate(thorough bool, emit func(c08Case)) {
 										if !eai && (fr.eai || su.eai || to.eai || ex.eai) {
 											continue
 										}
-										if !thorough {
+										if ex.tag == "huge-pad" && !(fi == 0 && si == 0 && ti == 0) {
+											continue
+										}
+										if !thorough && ex.tag != "huge-pad" {
 											// quick: every pair of (from, subject), (subject, to), (subject, extra) shapes, not every quadruple
-											if (fi+si+ti)%3 != 0 || (si+ei)%len(c08Extras) != fi%len(c08Extras) {
+											if (fi+si+ti)%3 != 0 || (si+ei)%(len(c08Extras)-1) != fi%(len(c08Extras)-1) {
 												continue
 											}
 										}
@@ -616,6 +629,9 @@ func c08Enumerate(thorough bool, emit func(c08Case)) {
 											}
 										}
 										for bi, b := range c08Bodies {
+											if ex.tag == "huge-pad" && bi != 1 {
+												continue
+											}
 											if strings.HasPrefix(b.tag, "big:") && !(fi == 0 && ti == 0 && ei == 0 && (si == 0 || thorough && si < 3)) {
 												// the large bodies go with the plainest header shapes only
 												continue
@@ -642,7 +658,7 @@ func TestVerifC08(t *testing.T) {
 	log.DefaultLogger.Out = log.NopOutput{}
 	r := vx.Start("C08", "spool+smtp")
 	defer r.Finish()
-	r.Rule("messages from a grammar of header-field shapes (5 From x 15 Subject x 3 To x 5 groups of further fields: folding with SP/TAB, fold right after the colon, whitespace-only continuation, empty values, 980-octet values, repeated fields, lower/upper-case names, 8-bit and UTF-8 values, a foreign DKIM-Signature) x 21 bodies (5 of them larger than the 32 KiB copy buffer with a line terminator or a leading dot on a buffer boundary; empty, CRLF only, leading/trailing empty lines, dot lines, trailing and inner whitespace, 998-octet line, 8-bit, UTF-8) x key {rsa2048, ed25519} x header canon x body canon x {ASCII, IDN signing domain} x {SMTPUTF8 on, off} x {first attempt, retry from the spool}; signed by modify.dkim, queued, sent by target.smtp to a scripted server; oracle: payload verifies with go-msgauth and with the independent vdkim verifier against the .dns record maddy wrote, and every tampered copy (signed field removed / altered, over-signed field added at top / bottom, body extended) is rejected by both. Quick tier: a covering subset of field-shape combinations; thorough: the full product")
+	r.Rule("messages from a grammar of header-field shapes (5 From x 15 Subject x 3 To x 6 groups of further fields incl. more than 1 MiB of padding fields above the signed ones: folding with SP/TAB, fold right after the colon, whitespace-only continuation, empty values, 980-octet values, repeated fields, lower/upper-case names, 8-bit and UTF-8 values, a foreign DKIM-Signature) x 21 bodies (5 of them larger than the 32 KiB copy buffer with a line terminator or a leading dot on a buffer boundary; empty, CRLF only, leading/trailing empty lines, dot lines, trailing and inner whitespace, 998-octet line, 8-bit, UTF-8) x key {rsa2048, ed25519} x header canon x body canon x {ASCII, IDN signing domain} x {SMTPUTF8 on, off} x {first attempt, retry from the spool}; signed by modify.dkim, queued, sent by target.smtp to a scripted server; oracle: payload verifies with go-msgauth and with the independent vdkim verifier against the .dns record maddy wrote, and every tampered copy (signed field removed / altered, over-signed field added at top / bottom, body extended) is rejected by both. Quick tier: a covering subset of field-shape combinations; thorough: the full product")
 	if rp := r.Replay(); rp != nil {
 		var c c08Case
 		if json.Unmarshal(rp, &c) != nil {
